@@ -220,7 +220,7 @@ COMPONENTS = {
 }
 
 PROPS = {
-    "C01": dict(flavor="san", level="exploration",
+    "C01": dict(reach=['fault.gap.issued', 'fault.gap.accepted', 'fault.close', 'fault.abort', 'fault.cb.stop', 'fault.cb.error', 'fault.cb.declined', 'fault.cb.reg_tx_hook', 'fault.cb.destroy_done_tx', 'fault.clock', 'fault.fs', 'fault.api.zero_len', 'fault.api.reopen', 'disposals', 'tx_freed', 'probe.decomp.passthrough', 'probe.decomp.restart', 'probe.req.buf.limit', 'probe.res.buf.limit', 'data_other.req', 'data_other.res'], flavor="san", level="exploration",
                 claim="Seeded search over whole-system simulated runs (actors, wire, IDS stub, callbacks, clock, file layer around the real libhtp under ASan+UBSan); every run checks memory safety, termination within a virtual-CPU budget and exact leak-freedom after teardown. Sampling, not proof: a clean batch is evidence for the schedules, inputs and configurations drawn.",
                 note="Trusts clang 14 ASan/UBSan, the seam layer (objcopy symbol redirection) and the harness; allocation failure is excluded here (C18); NULL+0 is benign by policy.",
                 technique="deterministic simulation with fault injection (seeded schedules, gaps/close/abort/callback/clock/fs faults) under ASan+UBSan with exact allocation accounting",
@@ -249,13 +249,13 @@ PROPS = {
                 technique="deterministic simulation: seeded actors apply triggers, wire schedules vary segmentation; spec-level predicate => flag on the reported transaction",
                 design_ref="DESIGN.md section 7 C11",
                 rule="19 triggers (TE+CL both orders, two CL same/different, folded CL, chunked on HTTP/1.0, CL empty/non-numeric/overflow, unsupported TE, target host/port differs from Host, Host missing on 1.1, invalid Host header (bad char, empty label, bad port, unclosed IPv6), invalid target host/port) x random header order/casing/OWS among 0-70 other headers x 1-3 exchanges x all segmentation strategies. Non-trivial/distinct as for C01."),
-    "C16": dict(flavor="san", level="exploration",
+    "C16": dict(reach=['probe.req.connect.suspend', 'probe.tx.yield_data_other', 'c16.tunnel_expected', 'c16.http_resumes', 'rc.req.4', 'rc.res.4', 'data_other.req', 'data_other.res'], flavor="san", level="exploration",
                 claim="Seeded search over CONNECT / upgrade exchanges x response status x what follows x legal interleavings x segmentations; checks suspension of the request side, tunnel mode (TUNNEL for every later call, no callbacks, no new transactions) and exact resumption of HTTP parsing after a refusal or when the tunnel carries plain HTTP.",
                 note="Tunnel payload is modelled as client-speaks-first (the server's tunnel bytes are offered after the client's); TLS-looking payload contains a NUL early, as real handshakes do.",
                 technique="deterministic simulation: two actors around a CONNECT/upgrade, seeded interleaving of the two directions incl. request bytes beyond the CONNECT head before/after the response; history checks on return codes, consumed counts, callbacks and transactions",
                 design_ref="DESIGN.md section 7 C16",
                 rule="0-2 ordinary exchanges, then CONNECT (or GET+Upgrade) with status 200/204/299/101/407/403/502/400/500/302, followed by plain HTTP exchanges, TLS-looking bytes or nothing; request bias 20-100 % (100 = all request bytes first, i.e. beyond the CONNECT head in the same or next chunk); all segmentation strategies. Non-trivial/distinct as for C01."),
-    "C07": dict(flavor="san", level="exploration",
+    "C07": dict(reach=['probe.decomp.flush_full', 'probe.decomp.restart', 'probe.decomp.passthrough', 'c07.bomb_runs', 'known_hit.decomp.restart.prior_input'], flavor="san", level="exploration",
                 claim="Fidelity: payloads encoded by the actors (zlib gzip/raw/zlib-wrapped, liblzma LZMA-alone, two-layer lists, mislabelled and plain bodies) are delivered through every segmentation of the compressed stream and compared with the original payload, under a simulated well-behaved clock. Bound: in every run (incl. the chaos mix with small bomb limits, corrupted streams and clock faults) delivered bytes per message stay within max(limit, 2048 x compressed) + one output buffer and the decompressor chain within the layer limit.",
                 note="Encoders (zlib deflate, liblzma) are trusted actor code; lzma is not mixed into multi-codec lists (libhtp decodes in listed order, the RFC lists in applied order; gzip/deflate mixes are rescued by libhtp's restart logic). The gettimeofday seam advances 1 us per read.",
                 technique="deterministic simulation: seeded chunkings of the compressed stream under a simulated clock; conservation oracle against the actor's payload + online bound invariant",
@@ -279,34 +279,34 @@ PROPS = {
                 technique="deterministic simulation with a virtual CPU clock (basic-block counter seam); pump schedules along a doubling ladder x delivery schedules",
                 design_ref="DESIGN.md section 7 C08",
                 rule="59 pump patterns (header lines distinct/same/empty/folded/LF-CR/no-colon, folded continuations under pending lines with/without colon or with empty name x plain/tab/colon/whitespace continuations on both sides, NUL in values, trailers, CR runs, spaces, chunk-size lines, chunk extension, empty lines, parameters in body and query, cookies, multipart parts and near-boundary lines, Content-Encoding tokens, pipelined transactions, interim 100 responses, CR/NUL junk, unexpected body lines, long values) x {whole, 1 byte per call, geometric chunks} x k = 64..8192 (16384 thorough), all personalities. A case = one (pattern, delivery, personality) ladder; evaluations = executions of libhtp."),
-    "C18": dict(flavor="san", level="fault_enumeration",
+    "C18": dict(reach=['c18.k_reached', 'c18.sustained_runs', 'c18.histories'], flavor="san", level="fault_enumeration",
                 claim="Fault enumeration over a seeded corpus: for each history the fault-free run counts K allocations (malloc/calloc/realloc/strdup made by libhtp, zlib and the bundled LZMA decoder, from htp_config_create to htp_config_destroy); then the run is repeated with the k-th allocation failing for every k <= K (quick: at most 1200 evenly spaced k per history), plus sustained-pressure runs in which every allocation from k on fails. Oracle: no ASan/UBSan report, every call returns, the per-call API contract keeps holding, teardown completes without double or invalid free.",
                 note="Leaks under an injected failure are counted, not raised (the statement does not promise leak-freedom under failure). The corpus is seeded, not exhaustive; within a history the enumeration over k is complete in the thorough tier.",
                 technique="deterministic simulation with allocation-failure injection at the allocator seam, enumerated over every allocation index of seeded histories",
                 design_ref="DESIGN.md section 7 C18",
                 rule="corpus entries: .t captures, CONNECT scripts, compressed responses (gzip, deflate, lzma, two layers) with cookies/credentials/query parameters, multipart uploads with file extraction, grammar exchanges; random configuration, optional gap/close/abort, per-tx hook registration, tx disposal. A case = (history, k); non-trivial = the injected failure was actually reached; distinct = distinct behaviour signature of the history."),
-    "C19": dict(flavor="own", level="exploration",
+    "C19": dict(reach=['c19.threaded_runs', 'c19.call_interleaved_runs', 'fault.sched.switches', 'c19.ownership_checks'], flavor="own", level="exploration",
                 claim="Three deterministic oracles over 2-8 connections sharing one configuration: (1) each connection's transactions, bodies and callback sequence equal those of the same connection run alone, under call-level interleaving on one thread; (2) the same under one real thread per connection with a seeded baton scheduler that pre-empts at compiler-inserted basic-block callbacks inside libhtp (exactly one thread runnable, switch points decided by a PRNG stored in the plan); (3) a memory-ownership oracle on every load and store libhtp makes (trace-loads/trace-stores build): a store into the shared configuration, its hook lists or a writable static while parsing, or any access to a block allocated by another connection's task, is a violation on first execution, whatever the schedule.",
                 note="TSan is not used for verdicts (blind under a serialising scheduler; free-running threads would be runtime monitoring). The writable-statics watch list is read from the freshly built objects with nm at every run. zlib's own code is not instrumented for loads/stores.",
                 technique="deterministic simulation: seeded baton scheduler over real threads with basic-block pre-emption + call-level interleaving; solo-equivalence and memory-ownership oracles",
                 design_ref="DESIGN.md section 7 C19",
                 rule="2-8 connections per run (grammar scripts, CONNECT scripts, gzip responses, captures, mutations) on one htp_cfg_t; 1/3 call-level interleaving, 2/3 threaded with pre-emption every ~3/10/40/200/2000 basic blocks; every connection re-run alone and compared. Non-trivial = >= 1 transaction completed; distinct = behaviour signature xor schedule hash."),
-    "C03": dict(flavor="san", level="exploration",
+    "C03": dict(reach=['probe.res.hdr.fold_peek_eoc', 'probe.req.hdr.fold_peek_eoc', 'probe.res.finalize.unread', 'cuts'], flavor="san", level="exploration",
                 claim="Differential simulation: the same seeded well-formed history is delivered under two segmentations of the simulated wire and everything the statement lists is compared; exhaustive single-cut sweeps for short histories are visited by consecutive run indices, the rest is seeded sampling.",
                 note="Domain is the CRLF grammar of DESIGN.md section 4 (bare-LF traffic is exercised only under the all-input properties); log messages, connection flags and return codes are not compared.",
                 technique="deterministic simulation: seeded wire segmentation schedules, differential oracle against the maximal-chunk schedule of the same history",
                 design_ref="DESIGN.md section 7 C03", rule="well-formed CRLF exchanges from the grammar (1-4 per connection), two skeletons (alternating / all requests then all responses); each plan is executed twice - maximal chunks vs. a variant chunking (single-cut sweep, geometric multi-cuts, 1-byte storm windows, cuts biased to CR/LF/colon/message edges, one byte per call) - and the canonical dump of every transaction, body bytes, raw header/trailer data and per-transaction callback order are compared. Non-trivial/distinct as for C01."),
-    "C05": dict(flavor="san", level="exploration",
+    "C05": dict(reach=['probe.tx.yield_data_other', 'known_hit.res.finalize.as_body', 'known_hit.req.finalize.as_body', 'known_hit.res.line.as_body', 'fault.cb.stop', 'fault.cb.error', 'fault.close', 'fault.gap.accepted'], flavor="san", level="exploration",
                 claim="Runtime monitor automaton evaluated inside every callback of every simulated run of the chaos scenario (all inputs, interleavings, closes, gaps, callback behaviours).",
                 note="Raw header/trailer data receivers and the end-of-body marker are not ranked (not in the statement's callback list); three lenient-parsing call sites are listed as known findings and attributed by guarded probe.",
                 technique="deterministic simulation with fault injection; per-transaction lifecycle automaton as an online invariant",
                 design_ref="DESIGN.md section 7 C05", rule="chaos plans as for C01; oracle is the per-transaction lifecycle automaton evaluated inside every callback (order, monotone progress with the interim-100 back-edge, at-most-once completions, silence after TRANSACTION_COMPLETE)."),
-    "C09": dict(flavor="san", level="exploration",
+    "C09": dict(reach=['rc.req.5', 'rc.res.5', 'rc.req.3', 'rc.res.3', 'rc.req.6', 'rc.res.6', 'rc.req.4', 'rc.res.4', 'rc.req.2', 'rc.res.2', 'sticky_followups.req', 'sticky_followups.res', 'handover_retries'], flavor="san", level="exploration",
                 claim="Per-call contract checked after every API call of every simulated run, plus bounded progress of the stub that follows the documented hand-over protocol.",
                 note="Byte counters are compared with bytes offered to a live stream (calls short-circuited by the STOP/ERROR/zero-length entry guards are not counted by libhtp and not by the oracle).",
                 technique="deterministic simulation with fault injection; API-contract invariants after every call and bounded-liveness check of the DATA_OTHER hand-over",
                 design_ref="DESIGN.md section 7 C09", rule="chaos plans as for C01; oracle evaluated after every data call: documented return code, DATA => whole chunk consumed, DATA_OTHER => strictly less, byte counters == bytes offered, sticky ERROR/STOP with no callbacks, bounded hand-over (no endless DATA_OTHER ping-pong)."),
-    "C10": dict(flavor="san", level="exploration",
+    "C10": dict(reach=['probe.req.buf.limit', 'probe.res.buf.limit', 'probe.tx.max_tx', 'probe.req.hdr.repeat_cap', 'probe.res.hdr.repeat_cap', 'probe.req.hdr.fold_cap', 'probe.res.hdr.fold_cap', 'c10.steady_runs'], flavor="san", level="exploration",
                 claim="Retention invariants checked after every API call over seeded runs with small limits; steady-state heap flatness over long streaming connections measured with the allocation seam.",
                 note="Private parser fields (in_buf_size, out_buf_size, in_header, out_header, transaction list) are read through the private headers.",
                 technique="deterministic simulation with fault injection; retention invariants after every call, allocation-seam accounting for steady state",
